@@ -127,6 +127,19 @@ check("C27",
       "DESIGN.md 6 C27",
       technique="bounded symbolic execution of the repo's transfer_bytes properties on symbolic nodes (symx) + z3 SMT")
 
+check("C17",
+      "Solver-decided for 2-3 operands, rank <= 2, <= 3 blocks per axis with symbolic chunk sizes (unbounded under "
+      "refine/coarse, <= 6 under auto whose cost model is nonlinear) and a symbolic array.unify-chunks-limit: the real "
+      "unify_chunks_expr (coarse_blockdim, moved_fraction, common_blockdim, dask's broadcast_dimensions, ArrayExpr.rechunk, "
+      "Rechunk.chunks) runs on symbolic operand nodes; every operand ends on the one common layout per index (broadcast axes "
+      "untouched), layouts sum to the axis length, 'refine' only adds boundaries, and under every policy no operand's "
+      "largest block exceeds max(limit, its own largest block). common_blockdim/coarse_blockdim alone: result is a layout "
+      "of the axis with no invented boundary; common_blockdim refines every operand.",
+      "Trusted: z3, symx shims incl. equality-based SymSet/SymDict (set/dict displays in the three modules are desugared from "
+      "the current source at run time). Value preservation of the inserted rechunks is C14's subject. Outside: unknown (nan) "
+      "sizes, more operands/blocks than the bound.",
+      "DESIGN.md 6 C17")
+
 ALL = [f"C{i:02d}" for i in range(1, 30)]
 
 
